@@ -1585,6 +1585,70 @@ fn resolve_benchmark_file_path(path: &str) -> PathBuf {
     }
 }
 
+/// Verification hooks (add-only): public wrappers around the private result
+/// validation and placeholder functions of this module.
+#[cfg(feature = "verif_hooks")]
+pub mod verif_hooks {
+    use super::*;
+
+    /// `SqlBenchmark::compare_results` for a query with the given `column_count`
+    /// (the query text is empty); the error is rendered with `to_string`.
+    pub fn compare_results(
+        column_count: usize,
+        actual_results: &[Vec<String>],
+        expected_results: &[Vec<String>],
+    ) -> std::result::Result<(), String> {
+        let query = BenchmarkQuery {
+            path: None,
+            query: String::new(),
+            column_count,
+            expected_result: vec![],
+        };
+        SqlBenchmark::compare_results(&query, actual_results, expected_results)
+            .map_err(|e| e.to_string())
+    }
+
+    /// `format_record_batches`.
+    pub fn format_record_batches(
+        batches: &[RecordBatch],
+    ) -> std::result::Result<Vec<Vec<String>>, String> {
+        super::format_record_batches(batches).map_err(|e| e.to_string())
+    }
+
+    /// `read_query_from_file` with an empty replacement mapping, as
+    /// `load_expected_result_files` calls it: `(column_count, expected_result)`.
+    pub async fn read_result_file(
+        ctx: &SessionContext,
+        path: &str,
+    ) -> std::result::Result<(usize, Vec<Vec<String>>), String> {
+        read_query_from_file(ctx, path, &HashMap::new())
+            .await
+            .map(|q| (q.column_count, q.expected_result))
+            .map_err(|e| e.to_string())
+    }
+
+    /// `process_replacements_with_env` with the environment given as a map.
+    pub fn process_replacements_with_env(
+        input: &str,
+        replacement_map: &HashMap<String, String>,
+        env: &HashMap<String, String>,
+    ) -> std::result::Result<String, String> {
+        super::process_replacements_with_env(input, replacement_map, |key| {
+            env.get(key).cloned()
+        })
+        .map_err(|e| e.to_string())
+    }
+
+    /// `insert_replacement` (keys are stored lower-cased).
+    pub fn insert_replacement(
+        replacement_map: &mut HashMap<String, String>,
+        key: &str,
+        value: String,
+    ) {
+        super::insert_replacement(replacement_map, key, value)
+    }
+}
+
 #[cfg(test)]
 mod tests {
     use super::*;
